@@ -47,6 +47,11 @@ func parseCycleLine(line string) []cycElem {
 
 // judgeCycles compares the Circular dependencies section with the reference relation.
 func judgeCycles(c *Ctx, conf *cfg.Config, run *cli.Run, files map[string]string) {
+	judgeCyclesOpt(c, conf, run, files, true)
+}
+
+// judgeCyclesOpt: with onlyDefect=false the configuration may carry other defects, so acceptance is not judged here.
+func judgeCyclesOpt(c *Ctx, conf *cfg.Config, run *cli.Run, files map[string]string, onlyDefect bool) {
 	g := ref.BuildGraph(conf)
 	pc, sc := g.ParamsOnCycle(), g.ServicesOnCycle()
 	cyclic := len(pc)+len(sc) > 0
@@ -63,7 +68,7 @@ func judgeCycles(c *Ctx, conf *cfg.Config, run *cli.Run, files map[string]string
 		}
 		return
 	}
-	if cyclic != (run.Res.Exit != 0) {
+	if onlyDefect && cyclic != (run.Res.Exit != 0) {
 		c.Violate("cycle-acceptance", fmt.Sprintf("cyclic=%v exit=%d", cyclic, run.Res.Exit), files)
 	}
 	covered := map[string]bool{}
